@@ -25,6 +25,38 @@ Proof.
 Qed.
 Print Assumptions C15_refines_dict.
 
+(* DictStorage over copy-on-access mappings (shelve): every method reads a
+   copy, modifies it and assigns it back *)
+Theorem C15_refines_dict_copying : forall ops s r,
+  RCDict s r -> wf_ops r ops = true ->
+  RCDict (fst (cdict_run true s ops)) (fst (ref_run r ops)) /\
+  Forall2 res_match (snd (cdict_run true s ops)) (snd (ref_run r ops)) /\
+  forall id, cdict_view (fst (cdict_run true s ops)) id = rlookup (fst (ref_run r ops)) id.
+Proof.
+  intros ops s r H Hwf. destruct (refines_dict_copying ops s r H Hwf) as [H1 H2].
+  split; [exact H1|]. split; [exact H2|]. intros id. apply cdict_view_rep. exact H1.
+Qed.
+Print Assumptions C15_refines_dict_copying.
+
+(* ... and without the assignment (the shipped set_recipients_delivered before
+   d35) the update is lost on such a mapping *)
+Theorem C15_dict_copying_noassign_refuted :
+  exists ops, wf_ops [] ops = true /\
+              ~ Forall2 res_match (snd (cdict_run false cdict_init ops)) (snd (ref_run [] ops)).
+Proof. exact dict_copying_noassign_refuted. Qed.
+Print Assumptions C15_dict_copying_noassign_refuted.
+
+Theorem C15_frame_dict_copying : forall s r o j,
+  RCDict s r -> wf_op r o = true -> ref_target r o <> Some j ->
+  cdict_view (fst (cdict_step true s o)) j = cdict_view s j.
+Proof.
+  intros s r o j H Hwf Hj.
+  apply (seq_frame cdstate (cdict_step true) RCDict cdict_view (fun _ _ => True)) with (r := r); try assumption; try exact I.
+  - intros s0 r0 id H0. apply cdict_view_rep. exact H0.
+  - intros s0 r0 o0 H0 H1 _. apply cdict_step_sim; assumption.
+Qed.
+Print Assumptions C15_frame_dict_copying.
+
 Theorem C15_refines_redis : forall ops s r,
   RRedis s r -> wf_ops r ops = true ->
   RRedis (fst (redis_run s ops)) (fst (ref_run r ops)) /\
@@ -111,9 +143,9 @@ Qed.
 Print Assumptions C15_refines_disk_numcodec.
 
 Theorem C15_initial_states_related :
-  RDict dict_init [] /\ RRedis redis_init [] /\ (forall f, RCloud (cloud_init f) []) /\
+  RDict dict_init [] /\ RCDict cdict_init [] /\ RRedis redis_init [] /\ (forall f, RCloud (cloud_init f) []) /\
   RDisk nc_enc_env nc_enc_meta [] [].
-Proof. split; [apply RDict_init|]. split; [apply RRedis_init|]. split; [apply RCloud_init|apply RDisk_init]. Qed.
+Proof. split; [apply RDict_init|]. split; [apply RCDict_init|]. split; [apply RRedis_init|]. split; [apply RCloud_init|apply RDisk_init]. Qed.
 Print Assumptions C15_initial_states_related.
 
 (* ---- what the reference store promises (hence every backend, by the theorems above) *)
